@@ -25,6 +25,9 @@ variable {α : Type}
 
 /-- allowed kernels per dispatch site -/
 def classes : List (String × List String) := [
+  ("new_reim_to_znx64_precomp/51", ["reim_to_znx64_avx2_bnd63_fma", "reim_to_znx64_ref"]),
+  ("new_reim_to_znx64_precomp/52", ["reim_to_znx64_avx2_bnd63_fma", "reim_to_znx64_ref"]),
+  ("new_cplx_to_tnx32_precomp/19", ["cplx_to_tnx32_ref"]),
   ("module0.p_conv", ["reim_from_znx64_bnd50_fma", "reim_from_znx64_ref"]),
   ("module0.p_fft", ["reim_fft_avx2_fma", "reim_fft_ref"]),
   ("module0.p_ifft", ["reim_ifft_avx2_fma", "reim_ifft_ref"]),
@@ -133,9 +136,54 @@ def classes : List (String × List String) := [
   ("new_reim_to_znx64_precomp/63", ["reim_to_znx64_avx2_bnd63_fma", "reim_to_znx64_ref"])
 ]
 
+/-- smallest log2 of the dimension (m for constructors, N for module entries) for which an accelerated kernel may be
+    installed: the vector kernels are only valid from their loop granularity upwards (8 doubles per iteration, …) -/
+def minLg : List (String × String × Nat) := [
+  ("module0.mul_fft", "reim_fftvec_mul_fma", 3),
+  ("module0.mul_fft", "reim_fftvec_mul_ref", 1),
+  ("module0.p_addmul", "reim_fftvec_addmul_fma", 3),
+  ("module0.p_addmul", "reim_fftvec_addmul_ref", 1),
+  ("module0.p_conv", "reim_from_znx64_bnd50_fma", 4),
+  ("module0.p_conv", "reim_from_znx64_ref", 1),
+  ("module0.p_fft", "reim_fft_avx2_fma", 1),
+  ("module0.p_fft", "reim_fft_ref", 1),
+  ("module0.p_ifft", "reim_ifft_avx2_fma", 1),
+  ("module0.p_ifft", "reim_ifft_ref", 1),
+  ("module0.p_reim_to_znx", "reim_to_znx64_avx2_bnd63_fma", 4),
+  ("module0.p_reim_to_znx", "reim_to_znx64_ref", 1),
+  ("new_cplx_fft_precomp", "cplx_fft_avx2_fma", 3),
+  ("new_cplx_fftvec_addmul_precomp", "cplx_fftvec_addmul_fma", 3),
+  ("new_cplx_fftvec_mul_precomp", "cplx_fftvec_mul_fma", 3),
+  ("new_cplx_from_tnx32_precomp", "cplx_from_tnx32_avx2_fma", 3),
+  ("new_cplx_from_znx32_precomp", "cplx_from_znx32_avx2_fma", 3),
+  ("new_cplx_ifft_precomp", "cplx_ifft_avx2_fma", 3),
+  ("new_cplx_to_tnx32_precomp/18", "cplx_to_tnx32_avx2_fma", 3),
+  ("new_reim4_fftvec_addmul_precomp", "reim4_fftvec_addmul_fma", 2),
+  ("new_reim4_fftvec_addmul_precomp", "reim4_fftvec_addmul_ref", 2),
+  ("new_reim4_fftvec_mul_precomp", "reim4_fftvec_mul_fma", 2),
+  ("new_reim4_fftvec_mul_precomp", "reim4_fftvec_mul_ref", 2),
+  ("new_reim4_from_cplx_precomp", "reim4_from_cplx_fma", 2),
+  ("new_reim4_from_cplx_precomp", "reim4_from_cplx_ref", 2),
+  ("new_reim4_to_cplx_precomp", "reim4_to_cplx_fma", 2),
+  ("new_reim4_to_cplx_precomp", "reim4_to_cplx_ref", 2),
+  ("new_reim_fftvec_addmul_precomp", "reim_fftvec_addmul_fma", 2),
+  ("new_reim_fftvec_mul_precomp", "reim_fftvec_mul_fma", 2),
+  ("new_reim_from_znx64_precomp", "reim_from_znx64_bnd50_fma", 3),
+  ("new_reim_to_tnx_precomp", "reim_to_tnx_avx", 3),
+  ("new_reim_to_znx64_precomp/50", "reim_to_znx64_avx2_bnd50_fma", 3),
+  ("new_reim_to_znx64_precomp/63", "reim_to_znx64_avx2_bnd63_fma", 3),
+  ("new_reim_to_znx64_precomp/51", "reim_to_znx64_avx2_bnd63_fma", 3),
+  ("new_reim_to_znx64_precomp/52", "reim_to_znx64_avx2_bnd63_fma", 3)
+]
+
+def minLgOf (site kernel : String) : Nat :=
+  match minLg.find? (fun e => e.1 == site && e.2.1 == kernel) with
+  | some e => e.2.2
+  | none => 0
+
 def rowOK (r : String × Nat × String × List Nat) : Bool :=
   match classes.lookup r.1 with
-  | some ks => ks.contains r.2.2.1
+  | some ks => ks.contains r.2.2.1 && r.2.2.2.all (fun lg => decide (minLgOf r.1 r.2.2.1 ≤ lg))
   | none => false
 
 /-- Gen obligation: every kernel installed by the live library is in its class -/
